@@ -255,6 +255,7 @@ type c07Pred struct {
 	L     *c07Pred `json:"l,omitempty"`
 	R     *c07Pred `json:"r,omitempty"`
 	Paren bool     `json:"paren,omitempty"`
+	BQ    bool     `json:"backquoted_alias,omitempty"` // the alias is written `alias` in HAVING
 }
 
 func (p *c07Pred) sql(tight, upper bool) string {
@@ -262,6 +263,9 @@ func (p *c07Pred) sql(tight, upper bool) string {
 	switch p.K {
 	case "atom":
 		lhs := p.Alias
+		if p.BQ {
+			lhs = "`" + p.Alias + "`"
+		}
 		if p.OpKind != "alias" {
 			lhs = p.Expr.sql(tight, upper)
 		}
@@ -704,6 +708,7 @@ func c07GenHaving(r *rand.Rand, c *c07Case, bs []*c07Batch) *c07Pred {
 		case kind < 3 && len(numeric) > 0:
 			it := pick(r, numeric)
 			a.OpKind, a.Alias, a.Shape, a.Expr = "alias", it.Name, it.Shape, it.Expr
+			a.BQ = r.Intn(8) == 0
 		case kind < 5 && len(plain) > 0:
 			it := pick(r, plain)
 			a.OpKind, a.Expr = "selected_agg", it.Expr
